@@ -113,6 +113,26 @@ def c11(pid, tier, replay):
             if d["builder"] is not None:
                 inst["builder_flags"] = d["builder"]
             insts.append(inst)
+        # every flag x both values, through the section and through the options, on rules that are
+        # sensitive to it (a catch must not depend on the random documents)
+        flagrules = [dict(re=r, name="T%d" % k, states=[], target=None, quote="'") for k, r in enumerate(["a.", "b$", "^c", "d+d", "e e", "k"])] + \
+                    [dict(re="[\\t\\x20]+", name=None, states=[], target=None, quote="'"), dict(re="\\n", name=None, states=[], target=None, quote="'")]
+        finputs = ["a\nb", "b\nb", "c\nc c", "ddd", "e e", "ee", "K k", "a\n", "b", "dd dd"]
+        k = 0
+        for f in ["dot_matches_new_line", "multi_line", "case_insensitive", "swap_greed", "ignore_whitespace"]:
+            for v in (True, False):
+                for via in ("header", "builder"):
+                    for other in (None, "multi_line", "dot_matches_new_line"):
+                        fl = {f: v}
+                        if other and other != f:
+                            fl[other] = not v
+                        d = dict(states=[], rules=[dict(r) for r in flagrules], header=(fl if via == "header" else None), builder=(fl if via == "builder" else None))
+                        text, rd = genlex.render_lsrc(d, rng)
+                        inst = dict(id="lflag%d" % k, l=text, doc=rd, eff=rd["eff"], inputs=finputs)
+                        if via == "builder":
+                            inst["builder_flags"] = fl
+                        insts.append(inst)
+                        k += 1
     job = os.path.join(res.wd, "job.json")
     trace = os.path.join(res.wd, "trace.ndjson")
     with open(job, "w") as f:
